@@ -6,7 +6,6 @@ use crate::gen::{self, Class, CLASSES};
 use crate::item::Item;
 use crate::prng::Rng;
 use std::io::{Read, Write};
-use std::os::unix::process::CommandExt;
 use std::path::PathBuf;
 use std::process::{Command, Stdio};
 
@@ -225,6 +224,20 @@ extern "C" {
 }
 const ADDR_NO_RANDOMIZE: std::os::raw::c_ulong = 0x0040000;
 
+/// Switch address-space randomisation off for every process this driver starts (the
+/// personality is inherited across fork/exec; the driver's own layout is already fixed).
+/// With ASLR off a host's memory layout is a function of its (seeded) environment block,
+/// arguments and history, so address-dependent behaviour replays.
+pub fn disable_aslr_for_children() -> bool {
+    unsafe {
+        let cur = personality(0xffff_ffff);
+        if cur == -1 {
+            return false;
+        }
+        personality(cur as std::os::raw::c_ulong | ADDR_NO_RANDOMIZE) != -1
+    }
+}
+
 #[derive(Debug)]
 pub struct HarnessError(pub String);
 
@@ -308,17 +321,6 @@ pub fn run_host(env: &Env, backend: Backend, build: Build, texts: &[(u32, String
     cmd.args(&cfg.argv);
     cmd.current_dir(&cfg.cwd);
     cmd.stdin(Stdio::piped()).stdout(Stdio::piped()).stderr(Stdio::piped());
-    if env.aslr_off {
-        unsafe {
-            cmd.pre_exec(|| {
-                // address-space layout becomes a function of the (seeded) env block and history
-                if personality(ADDR_NO_RANDOMIZE) == -1 {
-                    return Err(std::io::Error::last_os_error());
-                }
-                Ok(())
-            });
-        }
-    }
     let mut child = cmd.spawn().map_err(|e| HarnessError(format!("spawn {}: {}", bin.display(), e)))?;
     {
         let mut stdin = child.stdin.take().unwrap();
@@ -509,12 +511,12 @@ pub fn plan_world(ws: u64, corpus: &Corpus, o: &PlanOpts) -> World {
     }
 
     // swarm: class mix
-    let mut weights = [0u64; 6];
+    let mut weights = [0u64; 7];
     for w in weights.iter_mut() {
         *w = if rng.chance(2, 3) { rng.range(1, 4) as u64 } else { 0 };
     }
     if weights.iter().all(|w| *w == 0) {
-        weights = [2, 1, 1, 1, 1, 1];
+        weights = [2, 1, 1, 1, 1, 1, 2];
     }
     let total: u64 = weights.iter().sum();
     let k = rng.range(4, o.max_inputs.max(4));
